@@ -277,14 +277,21 @@ func checkC11(cs *c11Case, o *pt.Obs) error {
 		seen := map[int64]bool{}
 		for _, v := range s.Got {
 			if seen[v] {
-				return fmt.Errorf("search %d (%s) on %s returned _vid=%d twice (rotation during search: %v) %v", si, s.Text, s.Index, v, s.DuringRot, s.Odd)
+				return fmt.Errorf("search %d (%s) on %s returned _vid=%d twice (rotation during search: %v) %v%s", si, s.Text, s.Index, v, s.DuringRot, s.Odd, errorLog(dataDir))
 			}
 			seen[v] = true
 		}
 		for _, v := range s.AckedStart {
+			if !seen[v] && s.Text != "*" && s.DuringRot && pt.KnownFindingOpen("C11-filter-search-rotation-miss") {
+				// open finding: a filter search (persistent-query path) that overlaps a rotation of its
+				// index can skip events of the segment being handed over; match-all searches and
+				// searches that did not overlap a rotation stay strict
+				o.Known("C11-filter-search-rotation-miss")
+				break
+			}
 			if !seen[v] {
-				return fmt.Errorf("search %d (%s) on %s misses _vid=%d whose flush had completed before the search began (returned %d, acknowledged %d, rotation during search: %v)",
-					si, s.Text, s.Index, v, len(s.Got), len(s.AckedStart), s.DuringRot)
+				return fmt.Errorf("search %d (%s) on %s misses _vid=%d whose flush had completed before the search began (returned %d, acknowledged %d, rotation during search: %v)%s",
+					si, s.Text, s.Index, v, len(s.Got), len(s.AckedStart), s.DuringRot, errorLog(dataDir))
 			}
 		}
 		if s.DuringRot {
@@ -349,6 +356,23 @@ func checkC11(cs *c11Case, o *pt.Obs) error {
 		return fmt.Errorf("data race reported by the race detector: %s\n%s", sig, reports[sig])
 	}
 	return nil
+}
+
+// errorLog returns the last error-level lines the server wrote (the worker logs errors only).
+func errorLog(dataDir string) string {
+	b, err := os.ReadFile(filepath.Join(sut.AuxDir(dataDir), "worker.log"))
+	if err != nil {
+		return ""
+	}
+	lines := strings.Split(strings.TrimSpace(string(b)), "\n")
+	if len(lines) > 12 {
+		lines = lines[len(lines)-12:]
+	}
+	out := strings.Join(lines, "\n")
+	if len(out) > 4000 {
+		out = out[len(out)-4000:]
+	}
+	return "\nserver error log (tail):\n" + out
 }
 
 // allParked: at least two programme goroutines exist and none of the listed goroutines is running or runnable.
